@@ -234,7 +234,13 @@ class ExpressionParser:
             expected = self.check(_FIRST_EXP)
             right = None
             if expected:
-                right = self.parse_mult()
+                # Division groups left to right: a / b / c is (a / b) / c and
+                # a / b * c is (a / b) * c, so its right operand stops at the
+                # next operator.
+                if opType == TOKEN_TYPES.Divide:
+                    right = self.parse_exponent()
+                else:
+                    right = self.parse_mult()
 
             if not expected or right is None:
                 assert self._all_tokens is not None
